@@ -4,16 +4,42 @@ import (
 	"encoding/json"
 	"fmt"
 	"os"
+	"reflect"
 
 	"verif/internal/ev"
 )
 
-// Replayers re-run one recorded case of a property; they record violations on
-// the run exactly as the check does.
-var Replayers = map[string]func(r *ev.Run, c json.RawMessage){}
+// ReplayFilter, when set, restricts the shape-image families to the image
+// described by a violation artefact (keys of ShapeImage.Desc).
+var ReplayFilter map[string]interface{}
 
-// Replay re-runs a violation artefact (replay/<ID>-<hash>.json). Exit 1 if
-// the violation reproduces, 0 if not.
+func replayMatches(desc map[string]interface{}) bool {
+	if ReplayFilter == nil {
+		return true
+	}
+	for _, k := range []string{"family", "object", "page_size", "n", "tree", "rowids", "layout", "big"} {
+		want, ok := ReplayFilter[k]
+		if !ok {
+			continue
+		}
+		got, ok := desc[k]
+		if !ok {
+			return false
+		}
+		// JSON numbers come back as float64
+		if reflect.DeepEqual(got, want) || fmt.Sprint(got) == fmt.Sprint(want) {
+			continue
+		}
+		return false
+	}
+	return true
+}
+
+// Replay re-runs the case recorded in a violation artefact
+// (replay/<ID>-<hash>.json) against the current /repo. Where the artefact
+// names a generated image the exploration is restricted to that image;
+// otherwise the property's check is re-run at the recorded tier. Exit 1 if
+// the recorded signature shows up again, 0 if not.
 func Replay(path string) int {
 	b, err := os.ReadFile(path)
 	if err != nil {
@@ -21,28 +47,41 @@ func Replay(path string) int {
 		return 2
 	}
 	var a struct {
-		Property  string          `json:"property"`
-		Signature string          `json:"signature"`
-		What      string          `json:"what"`
-		Case      json.RawMessage `json:"case"`
+		Property  string                 `json:"property"`
+		Signature string                 `json:"signature"`
+		What      string                 `json:"what"`
+		Case      map[string]interface{} `json:"case"`
 	}
 	if err := json.Unmarshal(b, &a); err != nil {
 		fmt.Fprintln(os.Stderr, err)
 		return 2
 	}
 	fmt.Printf("replaying %s %s\n  recorded: %s\n", a.Property, a.Signature, a.What)
-	fn := Replayers[a.Property]
-	if fn == nil {
-		fmt.Printf("no single-case replayer for %s: the artefact describes the case; re-run ./vrun %s quick\n", a.Property, a.Property)
+	c, ok := Registry[a.Property]
+	if !ok {
+		fmt.Println("unknown property")
 		return 2
 	}
-	os.Setenv("VERIF_ROOT", os.TempDir()) // do not overwrite evidence
-	r := ev.NewRun(a.Property, "other")
-	fn(r, a.Case)
-	if r.ViolationCount() > 0 {
-		fmt.Println("reproduced")
+	if img, ok := a.Case["image"].(map[string]interface{}); ok {
+		ReplayFilter = img
+	} else if _, ok := a.Case["tree"]; ok {
+		ReplayFilter = a.Case
+	}
+	if ReplayFilter != nil {
+		fmt.Printf("  restricted to the image %v\n", ReplayFilter)
+	}
+	tmp, _ := os.MkdirTemp("", "verif-replay-")
+	defer os.RemoveAll(tmp)
+	// do not overwrite evidence; known findings are not applied: a replay shows what happens
+	ev.Root = tmp
+	r := ev.NewRun(a.Property, c.Level)
+	c.Fn(r)
+	again := r.HasViolation(a.Signature)
+	r.Finish()
+	if again {
+		fmt.Printf("REPRODUCED %s\n", a.Signature)
 		return 1
 	}
-	fmt.Println("not reproduced")
+	fmt.Printf("not reproduced: %s does not occur (any more)\n", a.Signature)
 	return 0
 }
